@@ -25,6 +25,7 @@ type behaviourStep struct {
 	VPost map[string]any `json:"vpost"`
 	Used  int            `json:"used"`
 	Alg   string         `json:"alg"`
+	Kept  bool           `json:"kept"` // the decode goes into the receiver of this type kept for the whole behaviour
 }
 
 type replayResult struct {
@@ -147,7 +148,11 @@ func replay(args []string) error {
 					}
 				}
 			case "decode":
-				ev, err = m.Exec(vh.Op{Op: "decode", B: "b", O: "r", T: st.T, Fresh: true})
+				if st.Kept {
+					ev, err = m.Exec(vh.Op{Op: "decode", B: "b", O: "r_" + st.T, T: st.T})
+				} else {
+					ev, err = m.Exec(vh.Op{Op: "decode", B: "b", O: "r", T: st.T, Fresh: true})
+				}
 				if err == nil {
 					switch {
 					case ev.Res != st.Res:
@@ -157,6 +162,12 @@ func replay(args []string) error {
 					case !sameJSON(ev.VPost, st.VPost):
 						fail(i, fmt.Sprintf("Decode(%s) produced a message that differs from the model's", st.T))
 					}
+				}
+			case "refused":
+				// a decode the model refuses: whatever the code answers is not judged (its acceptance of other inputs is not
+				// pinned); the caller drops the buffer and keeps the receiver
+				if _, err = m.Exec(vh.Op{Op: "decode", B: "b", O: "r_" + st.T, T: st.T}); err == nil {
+					ev, err = m.Exec(vh.Op{Op: "reset", B: "b"})
 				}
 			case "next":
 				ev, err = m.Exec(vh.Op{Op: "next", B: "b", K: st.K})
